@@ -99,10 +99,17 @@ FieldValues(d, o, x, i) ==
   IF TakesInput(d, o, x, i) THEN ({Conv(x[y].v) : y \in ProvidedIdx(d, o, x, i)} \ {Unprov})
                                  \cup (IF o.exclude /\ \E y \in ProvidedIdx(d, o, x, i) : Fails(x[y].v) THEN {DefaultOf(f, o)} ELSE {})
   ELSE {DefaultOf(f, o)}
+\* "dependencies of provided fields must be present": an accepted instance never holds a field that the input provided (with a valid
+\* value) while a field it depends on has no value at all (whatever kept the dependency out: not given, not taken as input, dropped)
+DepsPresent(d, o, x, r) ==
+  \A i \in 1..Len(d.fields) :
+    (TakesInput(d, o, x, i) /\ (\E y \in ProvidedIdx(d, o, x, i) : ~Fails(x[y].v)) /\ Get(r.attrs, d.fields[i].att) # Unprov)
+      => \A g \in Range(d.fields[i].deps) : Get(r.attrs, g) # Unprov
 \* outcome: [ok, kind, data (assoc out/extra key -> value), attrs (assoc att -> value or Unprov)]
 Admissible(d, o, x, r) ==
   IF ~r.ok THEN r.kind \in ErrKinds(d, o, x)
   ELSE /\ MustKinds(d, o, x) = {}
+       /\ DepsPresent(d, o, x, r)
        /\ \A i \in 1..Len(d.fields) : LET f == d.fields[i] IN
             \E v \in FieldValues(d, o, x, i) :
               /\ (IF v = Unprov \/ NoOutput(f, o) THEN ~Has(r.data, f.out) ELSE Has(r.data, f.out) /\ Get(r.data, f.out) = v)
@@ -115,6 +122,7 @@ Admissible(d, o, x, r) ==
        /\ \A e \in Range(r.data) : (\E i \in 1..Len(d.fields) : d.fields[i].out = e.k) \/ (\E y \in Unknown(d, o, x) : x[y].k.s = e.k)
 WhyNot(d, o, x, r) ==
   IF MustKinds(d, o, x) # {} /\ r.ok THEN "accepts-invalid"
+  ELSE IF r.ok /\ ~DepsPresent(d, o, x, r) THEN "dependency-absent"
   ELSE IF ErrKinds(d, o, x) = {} /\ ~r.ok THEN "rejects-valid"
   ELSE IF ~r.ok THEN "wrong-error-kind" ELSE "wrong-content"
 
